@@ -25,10 +25,42 @@ def replay(prop, path):
 
 
 def c03(tier, seed):
-    return gcheck.run_property(
+    import c03m, kcheck, mirsmt, report, subprocess, hostrun, json
+    rc_g = gcheck.run_property(
         "C03", tier, seed, suites.c03_cases(tier, seed), "reference",
         functions_encoded=["generated `Locale::a | Locale::b =>` arms of every accessor (view, Display, literal)"],
         bounds="default + 3 other locales; every `inherits` map over them (125, incl. cycles, self reference, explicit inheritance from the default); presence patterns defined/null/absent for a string, an interpolation, a number, a range and a subkey group with nested group (quick: one pattern per map, thorough: all 27 per map).")
+    # kernel: DefaultedLocales::default_of_inner from MIR, for every mapping over n locales
+    rc_m = 0
+    cov = {"engine": "MIR -> z3 (lib/mirsmt.py), MIR regenerated from the working tree this run"}
+    try:
+        mir = mirsmt.dump_mir("leptos_i18n_parser", "parser.mir")
+        runs = []
+        for n in ((3, 5) if tier == "quick" else (2, 3, 4, 5, 6, 7)):
+            r = c03m.decide(mir, n)
+            runs.append(r)
+            if r["status"] == "sat":
+                m = r["model"]
+                q = {"default": m["default"], "mapping": m["mapping"], "start": m["start"]}
+                p = subprocess.run([hostrun.HOST_BIN, "default-of", json.dumps(q)], capture_output=True, text=True)
+                path = report.write_replay("C03", "default_of_inner_n%d" % n, {"model": m, "real_result": p.stdout.strip(),
+                                           "how_to_replay": "%s default-of '%s'" % (hostrun.HOST_BIN, json.dumps(q))})
+                print("VIOLATION property=C03 replay=%s" % path)
+                print("  default_of_inner disagrees with the inheritance walk for %s (real result %s)" % (json.dumps(q), p.stdout.strip()))
+                rc_m = 1
+            elif r["status"] != "unsat" or r["unwinding"] != "unsat" or r["witness_cycle_reaches_default"] != "sat":
+                print("INCONCLUSIVE property=C03 MIR kernel n=%d: %s" % (n, r))
+                rc_m = max(rc_m, 2)
+        cov.update({"functions_encoded": ["leptos_i18n_parser::parse_locales::locale::DefaultedLocales::default_of_inner"],
+                    "bounds": "every mapping (partial function locale -> locale) and every start / default locale over n locales, n in %s; loop unrolled n+2 times with an unwinding assertion; `visited` empty on entry (as both callers guarantee)" % [r["n"] for r in runs],
+                    "summaries": ["BTreeMap::get -> select on (Array Loc Bool, Array Loc Loc)", "HashSet::insert/contains -> store/select on (Array Loc Bool)"],
+                    "runs": runs, "solver_s": round(sum(r["solver_s"] for r in runs), 3)})
+    except mirsmt.Unsupported as e:
+        print("INCONCLUSIVE property=C03 MIR kernel: %s" % e)
+        cov["unsupported"] = str(e)
+        rc_m = 2
+    kcheck.merge_evidence("C03", "mir_kernel", cov, 1 if rc_m == 1 else 0)
+    return 1 if 1 in (rc_g, rc_m) else max(rc_g, rc_m)
 
 
 RANGE_TYPES = ["i8", "i16", "i32", "i64", "u8", "u16", "u32", "u64", "f32", "f64"]
